@@ -331,60 +331,6 @@ where
 // ======================================================================================
 // node identifiers: NodeIndices, IntoNodeIdentifiers for &Graph, NodeCompactIndexable
 // ======================================================================================
-/// the identifiers lo, lo+1, .., hi-1
-pub open spec fn nix_range<Ix: IndexType>(lo: int, hi: int) -> Seq<NodeIndex<Ix>> {
-    Seq::new((if hi >= lo { hi - lo } else { 0 }) as nat, |k: int| NodeIndex(Ix::spec_new((lo + k) as usize)))
-}
-
-//@ item src/graph_impl/mod.rs | - | struct NodeIndices
-/// Iterator over the node indices of a graph.
-pub struct NodeIndices<Ix = DefaultIx> {
-    pub r: Range<usize>,
-    pub ty: PhantomData</*R:D19 fn() -> Ix */ Ix /*-*/>,
-}
-//@ end
-
-impl<Ix: IndexType> vstd::std_specs::iter::IteratorSpecImpl for NodeIndices<Ix> {
-    open spec fn obeys_prophetic_iter_laws(&self) -> bool { true }
-    open spec fn remaining(&self) -> Seq<NodeIndex<Ix>> { nix_range::<Ix>(self.r.start as int, self.r.end as int) }
-    open spec fn decrease(&self) -> Option<nat> { Some((if self.r.end >= self.r.start { self.r.end - self.r.start } else { 0 }) as nat) }
-    open spec fn will_return_none(&self) -> bool { true }
-    open spec fn peek(&self, i: int) -> Option<NodeIndex<Ix>> { None }
-}
-
-//@ item src/graph_impl/mod.rs | - | impl<Ix: IndexType> Iterator for NodeIndices<Ix>
-impl<Ix: IndexType> Iterator for NodeIndices<Ix> {
-    type Item = NodeIndex<Ix>;
-
-    fn next(&mut self) -> Option<Self::Item> {
-        self.r.next().map(node_index)
-    }
-
-    /*+*/#[verifier::external_body]/*-*/
-    fn size_hint(&self) -> (usize, Option<usize>) {
-        self.r.size_hint()
-    }
-}
-//@ end
-
-impl<N, E, Ty, Ix> Graph<N, E, Ty, Ix>
-where
-    Ty: EdgeType,
-    Ix: IndexType,
-{
-//@ item src/graph_impl/mod.rs | impl<N, E, Ty, Ix> Graph<N, E, Ty, Ix> where Ty: EdgeType, Ix: IndexType | fn node_indices
-    pub fn node_indices(&self) -> (r: NodeIndices<Ix>)
-        /*+*/ensures r.remaining() == nix_range::<Ix>(0, self.nodes@.len() as int), r.obeys_prophetic_iter_laws(), r.decrease() is Some/*-*/   // [node_indices_all_nodes_once]
-    {
-        NodeIndices {
-            r: 0..self.node_count(),
-            ty: PhantomData,
-        }
-    }
-//@ end
-}
-
-
 //@ item src/graph_impl/mod.rs | - | impl<'a, N, E: 'a, Ty, Ix> visit::IntoNodeIdentifiers for &'a Graph<N, E, Ty, Ix> where Ty: EdgeType, Ix: IndexType
 impl<'a, N, E: 'a, Ty, Ix> visit::IntoNodeIdentifiers for &'a Graph<N, E, Ty, Ix>
 where
